@@ -49,7 +49,9 @@ def inv_own_refs(H):
         Val.is_ref(H.fld("_teardown_callbacks", x)), Val.is_ref(H.fld("_child_contexts", x)),
         0 <= R(H, x), R(H, x) < H.alloc, 0 <= Fa(H, x), Fa(H, x) < H.alloc, 0 <= T(H, x), T(H, x) < H.alloc,
         0 <= Val.a(H.fld("_child_contexts", x)), Val.a(H.fld("_child_contexts", x)) < H.alloc,
-        0 <= x, x < H.alloc))
+        0 <= x, x < H.alloc,
+        # the parent of an initialised context is None or an initialised context
+        z3.Or(H.fld("_parent", x) == VNone, z3.And(Val.is_ref(H.fld("_parent", x)), is_ctx(H, Val.a(H.fld("_parent", x)))))))
 
 
 def inv_own_tags(H):
@@ -333,7 +335,7 @@ def register(reg):
         return z3.ForAll([x], z3.Implies(z3.Or(x >= H.alloc, x < 0), z3.Not(z3.Select(H.g("g:ctx_init"), x))),
                          patterns=[z3.Select(H.g("g:ctx_init"), x)])
     reg.invariants += [("I-init0:only-allocated-objects-are-initialised-contexts", inv_init0, ("alloc", "g:ctx_init")),
-                       ("I-own:containers-allocated", inv_own_refs, CTXF + ("alloc",)),
+                       ("I-own:containers-allocated", inv_own_refs, CTXF + ("alloc", "fld:_parent")),
                        ("I-own:contexts-own-their-containers", inv_own_tags, CTXF + ("g:owner",)),
                        ("I-state:state-is-a-ContextState", inv_state, ("g:ctx_init", "fld:_state")),
                        ("I-key:table-keys-match-containers", inv_key_R, CTXF + ("d_has", "d_get", "fld:name", "fld:types", "t_len", "t_item", "alloc")),
